@@ -864,6 +864,9 @@ def run_impl(case):
     if back != want:
         return {"abstraction_mismatch": {"dumped": back, "declared": want}}
     cls_actual = C.fix_accepts(dump.dump_class(cls, ctx))
+    # the same class with every (nested) class's fields in DEFINITION order: the order deserialization
+    # visits them in, at every level (which nested failure comes first decides the exception class)
+    cls_def = C.fix_accepts(dump.dump_class(cls, ctx, order="definition")) if case["mode"] == "deser" else None
     mode = case["mode"]
     decl_of = dict((n, fd) for n, fd in decl["fields"])
     share_inner_fields(cls, case.get("share", []), ctx)
@@ -887,6 +890,7 @@ def run_impl(case):
     if history:
         res["history"] = history
     if mode == "deser":
+        res["cls_def"] = cls_def
         res["doc_actual"] = [[k, dump.dump_value(v, ctx)] for k, v in kw.items()]
         # the order construct_fields_map visits the fields, and the scratch `_name` every inner Field
         # instance carries right now (left there by earlier constructions; inputs of the Lean model)
@@ -1005,6 +1009,8 @@ def line(case, impl):
             l["doc"] = impl["raw_doc_actual"]
             l["mapper"] = impl["mapper"]
         l["order"] = impl.get("order", [])
+        if impl.get("cls_def") is not None:
+            l["clsDef"] = impl["cls_def"]
         l["scratch"] = impl.get("scratch", [])
         # keep_undefined as deserialize_structure_internal receives it (Deserializer.deserialize passes
         # None on for a class that allows additional properties)
